@@ -8,7 +8,7 @@
 From Coq Require Import Sorting.Sorted ZArith.
 From Stam Require Import Base.Tac Model.Offset Model.Store Model.StoreObs Spec.StoreSpec
      Proofs.StoreScan Proofs.StoreInv Proofs.StoreDataDef Proofs.StoreRemove Proofs.StoreData Proofs.StoreStable
-     Model.Compress Proofs.Compress Proofs.StoreSel.
+     Model.Compress Proofs.Compress Proofs.StoreSel Model.SubOrder Proofs.SubOrder.
 From Stam Require Model.Validate Proofs.ValidateProtect.
 
 (* every reverse index of every reachable store is exact *)
@@ -59,6 +59,19 @@ Theorem C01_targets_never_change : forall ops ops' h a',
   h < length (anns (run ops)) -> get_ann (run (ops ++ ops')) h = Some a' ->
   exists a, get_ann (run ops) h = Some a /\ same_ann a a'.
 Proof. exact targets_never_change. Qed.
+
+(* The comparator with which the members of Multi/Composite selectors are sorted before they are
+   compressed (sort_unstable_by needs a consistent total order, for every mix of the nine selector
+   kinds - the pinned code's comparator was not: fix f7d544a) is the lexicographic order of a key:
+   antisymmetric, transitive, Equal exactly on equal keys. *)
+Theorem C01_subselector_order_is_total : forall s a b c,
+  leaf_cmp s a b = lex4 (leaf_sortkey s a) (leaf_sortkey s b)
+  /\ leaf_cmp s b a = CompOpp (leaf_cmp s a b)
+  /\ (leaf_cmp s a b <> Gt -> leaf_cmp s b c <> Gt -> leaf_cmp s a c <> Gt)
+  /\ (leaf_cmp s a b = Eq <-> leaf_sortkey s a = leaf_sortkey s b).
+Proof.
+  intros s a b c. split; [apply leaf_cmp_key|]. split; [apply leaf_cmp_antisym|]. split; [apply leaf_cmp_trans|apply leaf_cmp_eq].
+Qed.
 
 (* protect-text operations anywhere in the history (the operation of C18: it adds validation data
    to annotations through its own update of dataset_data_annotation_map): every reverse index
